@@ -28,6 +28,9 @@ pub fn fields_of(b: &Branch, r: &mut Rng, prop: Option<Prop>) -> Vec<ExpF> {
 }
 
 pub fn via_for(i: u64) -> Via {
+    if i % 8 == 7 {
+        return Via::Group;
+    }
     match i % 4 {
         0 | 1 => Via::Raw,
         2 => Via::Armor,
